@@ -112,7 +112,10 @@ func genSpec(rng *rand.Rand, i int, thorough bool) tableSpec {
 		Profile:  profileNames[i%len(profileNames)], // cycle so that every quick run sees every profile
 	}
 	s.TestKeys = rng.IntN(5) != 0
-	s.BlockSize = pick(rng, 48, 100, 256, 600, 1500, 4096, 32768)
+	// Mostly small blocks: a corrupted read costs O(block length^2) inside
+	// pebble (bit-flip search on checksum mismatch). Large blocks are kept as
+	// a minority; their corruptions are thinned by the per-file budget.
+	s.BlockSize = pick(rng, 48, 100, 100, 256, 256, 600, 600, 1500, 4096, 32768)
 	s.IndexBlockSize = pick(rng, 1, 64, 256, 4096, 4096)
 	if rng.IntN(2) == 0 {
 		s.Filter = pick(rng, "bloom(10)", "bloom(3)", "binaryfuse(8)", "binaryfuse(16)")
